@@ -239,6 +239,29 @@ def run(ctx, model_ok):
         text = render(tree, lambda: g)
         if admissible(text):
             cases.append({"text": text, "f": evalf(tree), "q": evalq(tree), "ops": nops(tree), "kind": "cancel"})
+    # long chains: hundreds of addends with inexact partial sums ('0,1 + 0,1 + ...', '1P 0,05 0,05 ...', also in parentheses and
+    # with a factor behind): the sum is the left fold in IEEE arithmetic, whatever the number of operands
+    for _ in range(ctx.n(24, 400)):
+        n_add = rng.choice([100, 127, 128, 129, 130, 200, 255, 256, 257, 300, 513, 600])
+        pool = rng.choice([["0.1"], ["0.05", "0.1"], ["0.1", "0.2", "0.3"], ["1.1", "0.7", "1000000.3"], ["0.01"]])
+        lits = [Lit(rng.choice(pool)) for _ in range(n_add)]
+        if rng.random() < 0.4:
+            lits[0] = Lit("1", "P")
+        mode = rng.choice(["plus", "plus", "side", "mixed", "minus"])
+        f, q = lits[0].fval(), lits[0].qval()
+        text = lits[0].render(None)
+        for l_ in lits[1:]:
+            sub = mode == "minus" and rng.random() < 0.3
+            sep = " - " if sub else (" + " if mode in ("plus", "minus") or (mode == "mixed" and rng.random() < 0.5) else " ")
+            text += sep + l_.render(None)
+            f = f - l_.fval() if sub else f + l_.fval()
+            q = q - l_.qval() if sub else q + l_.qval()
+        wrap = rng.random()
+        if wrap < 0.25:
+            text, f, q = "(" + text + ") * 3", f * 3.0, q * 3
+        elif wrap < 0.4:
+            text, f, q = "2 + (" + text + ")", 2.0 + f, 2 + q
+        cases.append({"text": text, "f": f, "q": q, "ops": n_add - 1, "kind": "long-chain"})
     # tiny divisors, down to the subnormal range: a divisor that is not zero divides (only a zero divisor gives 0)
     lit_ = lambda s_: ("prim", ("lit", Lit(s_)))
     one_ = lambda x: ("one", x)
@@ -347,7 +370,8 @@ def run(ctx, model_ok):
             ctx.sample({"text": c["text"], "impl": got, "spec": c["f"]})
     if model_ok:
         co = wire.Corr(ctx, compare=("kind", "value", "raw"))
-        co.run([{"lang": "en", "text": c["text"]} for c in cases[:ctx.n(2500, 30000)]])
+        co.run([{"lang": "en", "text": c["text"]} for c in cases[:ctx.n(2500, 30000)]] +
+               [{"lang": "en", "text": c["text"]} for c in cases[ctx.n(2500, 30000):] if c["kind"] == "long-chain"][:ctx.n(24, 200)])
         ctx.dist.update({"corr:" + k: v for k, v in co.stats.items()})
         lexer_tie(ctx, [c["text"] for c in cases if c["kind"] in ("expr", "enum", "curated")])
 
